@@ -179,12 +179,12 @@ func c19GenDoc(r *xrand.Rand, idx int, tier string) *fw.Case {
 	type tagDecl struct{ name, ann string }
 	var decls []tagDecl
 	for i := 0; i < nt; i++ {
-		d := tagDecl{name: fmt.Sprintf("@T%d", i)}
+		d := tagDecl{name: []string{"@T", "@T1", "@T12", "@T123"}[i]} // each name is a prefix of the next ones
 		if r.Chance(1, 5) { // a declared tag that has the name an automatic path tag gets
 			d.name = []string{"@cats", "@dogs", "@a__b"}[r.Intn(3)]
 			for _, prev := range decls {
 				if prev.name == d.name {
-					d.name = fmt.Sprintf("@T%d", i)
+					d.name = []string{"@T", "@T1", "@T12", "@T123"}[i]
 				}
 			}
 		}
@@ -236,12 +236,22 @@ func c19GenDoc(r *xrand.Rand, idx int, tier string) *fw.Case {
 		case 0, 1: // URL block with http methods
 			var utags []string
 			sb.WriteString("URL " + path + "\n")
+			tagsLater := ""
 			if r.Bool() {
 				utags = pick()
-				sb.WriteString("  Tags " + strings.Join(utags, " ") + "\n")
+				if r.Chance(1, 3) {
+					tagsLater = "  Tags " + strings.Join(utags, " ") + "\n" // written after the first method, which gets parentheses
+				} else {
+					sb.WriteString("  Tags " + strings.Join(utags, " ") + "\n")
+				}
 			}
 			nm := r.Range(1, 3)
 			perm := r.Perm(len(verbs))
+			if tagsLater != "" {
+				v := verbs[perm[nm]]
+				sb.WriteString("  " + v + "\n  (\n    200 any\n  )\n" + tagsLater)
+				methods = append(methods, c19Method{proto: "http", verb: v, path: path, url: utags})
+			}
 			for m := 0; m < nm; m++ {
 				me := c19Method{proto: "http", verb: verbs[perm[m]], path: path, url: utags}
 				switch {
